@@ -214,6 +214,34 @@ pub fn gen_case(seed: u64, run: u64, faults: bool, real_every: u64) -> Case {
             _ => argv = gen::base_sentence(&mut r, &opts, true),
         }
         argv.truncate(12);
+        if r.chance(1, 10) {
+            // a bundle of short flags, often with a help or version short in it
+            let letters = bundle_letters(&opts);
+            if letters.len() >= 2 {
+                let mut word = vec![b'-'];
+                let n = r.range(2, letters.len().min(3));
+                let mut pool = letters.clone();
+                if r.chance(1, 2) {
+                    for c in ['h', 'V'] {
+                        if let Some(ix) = pool.iter().position(|x| *x == c) {
+                            pool.swap(0, ix);
+                        }
+                    }
+                } else {
+                    let k = r.below(pool.len());
+                    pool.swap(0, k);
+                }
+                for c in pool.into_iter().take(n) {
+                    word.push(c as u8);
+                }
+                if r.chance(1, 2) {
+                    word[1..].reverse();
+                }
+                let limit = argv.iter().position(|t| t == b"--").unwrap_or(argv.len());
+                let at = r.below(limit + 1);
+                argv.insert(at, word);
+            }
+        }
         if !argv.is_empty() && r.chance(1, 25) {
             // one very long word: quoted back in a failure message of several KiB
             let at = r.below(argv.len());
@@ -611,6 +639,64 @@ pub fn plain_request(opts: &Opts, rest: &[Tok]) -> bool {
         }
     }
     true
+}
+
+/// Letters that bpaf documents as bundleable (`-ab` is `-a -b`) in this definition: short names
+/// of visible flags and the top level's help/version shorts, minus every letter that is also an
+/// argument's short name, a hidden flag's, or a help/version short of a nested level only.
+/// Empty when the definition has items that look at the raw word (`any`, `literal`).
+pub fn bundle_letters(opts: &Opts) -> Vec<char> {
+    use crate::shape::{Shape, W};
+    let mut raw = false;
+    let mut flags: Vec<char> = Vec::new();
+    let mut banned: Vec<char> = Vec::new();
+    fn go(s: &Shape, hidden: bool, flags: &mut Vec<char>, banned: &mut Vec<char>, raw: &mut bool) {
+        match s {
+            Shape::Switch(n) | Shape::Flag(n, _, _) | Shape::ReqFlag(n, _) => {
+                if hidden {
+                    banned.extend(n.shorts.iter().copied());
+                } else {
+                    flags.extend(n.shorts.iter().copied());
+                }
+            }
+            Shape::Arg { named, .. } => banned.extend(named.shorts.iter().copied()),
+            Shape::Any { .. } | Shape::Literal { .. } => *raw = true,
+            Shape::Battery(_) => banned.extend(['v', 'q']),
+            Shape::Cmd { opts, shorts, .. } => {
+                banned.extend(shorts.iter().copied());
+                for n in [&opts.help_names, &opts.version_names].into_iter().flatten() {
+                    banned.extend(n.shorts.iter().copied());
+                }
+                if opts.cargo.is_some() {
+                    *raw = true;
+                }
+                go(&opts.root, false, flags, banned, raw)
+            }
+            Shape::Wrap(w, i) => go(i, hidden || matches!(w, W::Hide), flags, banned, raw),
+            Shape::Seq(xs, _) | Shape::Alt(xs) => {
+                for x in xs {
+                    go(x, hidden, flags, banned, raw)
+                }
+            }
+            _ => {}
+        }
+    }
+    go(&opts.root, false, &mut flags, &mut banned, &mut raw);
+    if raw || opts.cargo.is_some() {
+        return Vec::new();
+    }
+    match &opts.help_names {
+        None => flags.push('h'),
+        Some(n) => flags.extend(n.shorts.iter().copied()),
+    }
+    match &opts.version_names {
+        None => flags.push('V'),
+        Some(n) => flags.extend(n.shorts.iter().copied()),
+    }
+    flags.retain(|c| !banned.contains(c) && c.is_ascii_alphanumeric());
+    flags.sort_unstable();
+    flags.dedup();
+    flags
 }
 
 fn show(b: &[u8]) -> String {
@@ -1051,6 +1137,47 @@ pub fn run_case(case: &Case, stats: &mut Stats) -> RunReport {
                 "rule=P5 completion-without-request".to_string(),
                 "completion output although no completion was requested".to_string()
             );
+        }
+        // ---- P8: a bundle of short flags is a spelling of the separate flags
+        {
+            let letters = bundle_letters(opts);
+            let before = &rest[..rest.iter().position(|t| t == b"--").unwrap_or(rest.len())];
+            let plain_line = !rest.iter().any(|t| t.starts_with(b"--bpaf-complete-"));
+            let found = before.iter().position(|t| {
+                t.len() >= 3
+                    && t[0] == b'-'
+                    && t[1..].iter().all(|b| letters.contains(&(*b as char)))
+                    && (1..t.len()).all(|i| !t[i + 1..].contains(&t[i]))
+            });
+            if let (Some(at), true) = (found, plain_line && !letters.is_empty()) {
+                let mut split: Vec<Tok> = rest[..at].to_vec();
+                for b in &rest[at][1..] {
+                    split.push(vec![b'-', *b]);
+                }
+                split.extend_from_slice(&rest[at + 1..]);
+                let twin = exec::build_unchecked(opts);
+                let other = exec::run_inner(&twin, &split, &name, None, None, budget);
+                drop(twin);
+                stats.bump("rule.P8.evaluated");
+                let same = match (&pred.outcome, &other.outcome) {
+                    (Outcome::Value(a), Outcome::Value(b)) => a == b,
+                    (Outcome::Stdout(a), Outcome::Stdout(b)) => a == b,
+                    (a, b) => a.class() == b.class(),
+                };
+                if !same {
+                    violation!(
+                        "P8",
+                        ix,
+                        format!("rule=P8 bundle classes={}/{}", pred.outcome.class(), other.outcome.class()),
+                        format!(
+                            "the bundle {:?} is made of short flags only (no letter names an argument, a hidden item or a nested level's help), yet spelling the flags one by one changes the outcome\nbundled : {:?}\nseparate: {:?}",
+                            String::from_utf8_lossy(&rest[at]),
+                            pred.outcome,
+                            other.outcome
+                        )
+                    );
+                }
+            }
         }
         // ---- P7: a plain request for help or version is answered on stdout, at any level
         if plain_request(opts, rest) {
